@@ -23,10 +23,10 @@ ASSUMPTIONS = ['SHA-384 collision resistance (a writer is model-accepted iff its
                'disk-write failures inside _write_blob are out of scope (not a peer behaviour)']
 REQUIRED_HITS = ['L1.second_download_checked', 'S1.steps_checked', 'S1.bad_only_case', 'L1.checked', 'L1.multi_writer', 'S2.callback_seen',
                  'schedule.same_iteration_double_win', 'kind.flip', 'kind.trunc_closed', 'kind.overlong_straddle',
-                 'kind.unrelated', 'kind.overlong_later', 'decl.too_big', 'decl.zero', 'decl.unknown']
+                 'kind.unrelated', 'kind.correct_then_closed', 'decl.length_only_claimed_by_peer', 'kind.overlong_later', 'decl.too_big', 'decl.zero', 'decl.unknown']
 MAX = 2 * 1024 * 1024
 KINDS = ['correct', 'flip', 'trunc_silent', 'trunc_closed', 'overlong_later', 'overlong_straddle', 'unrelated',
-         'late_correct']
+         'late_correct', 'correct_then_closed']
 _TMP = {}
 
 
@@ -136,6 +136,11 @@ def build_writer_plan(r, kind, content, L_target):
     close_after = False
     if kind in ('correct', 'late_correct'):
         chunks = chunk(r, content, style)
+    elif kind == 'correct_then_closed':
+        # the whole real blob, then the peer hangs up (close_handle): complete when the announced length is right, NOT a copy of the
+        # announced length when that was over-stated (seeded break C01-F accepted it on the hash alone)
+        chunks = chunk(r, content, style)
+        close_after = True
     elif kind == 'flip':
         p = r.choice([0, n // 2, n - 1, r.randrange(n)])
         b = bytearray(content)
@@ -276,6 +281,7 @@ async def _run(rec, r, content, kinds, decl, blobkind, steps, case):
     blob = Mon(loop, blob_hash, ctor_len, completed, bdir)
     blob.verified = MonEvent(events, 'verified')
     late_set = None
+    claimed = r.random() < 0.7
     for s in sets:
         if s == 'late':
             late_set = True
@@ -284,6 +290,13 @@ async def _run(rec, r, content, kinds, decl, blobkind, steps, case):
             late_set = s
             continue
         before = blob.get_length()
+        if before is None and claimed:
+            # as BlobExchangeClientProtocol does when the length is only what a peer announced
+            try:
+                blob.length_claimed_by_peer = True
+                rec.hit('decl.length_only_claimed_by_peer')
+            except AttributeError:
+                pass
         blob.set_length(s)
         if before is None and isinstance(s, int) and 0 < s <= MAX and blob.get_length() != s:
             rec.violation('C01/L1/legal-announced-length-refused', f'set_length({s}) on a blob of unknown length was refused (0 < n <= 2 MiB is the '
@@ -413,6 +426,11 @@ async def _run(rec, r, content, kinds, decl, blobkind, steps, case):
     for kind_, arg in order:
         step_no += 1
         if late_set not in (None, True) and step_no == 2:
+            if blob.get_length() is None and claimed:
+                try:
+                    blob.length_claimed_by_peer = True
+                except AttributeError:
+                    pass
             blob.set_length(late_set)
         if kind_ == 'burst':
             # interleave the two writers' chunks without yielding to the loop
@@ -472,6 +490,9 @@ async def _run(rec, r, content, kinds, decl, blobkind, steps, case):
                 rec.violation('C01/L1/verified-but-unreadable', f'verified blob cannot be read: {e!r}', {'kinds': kinds})
             if stored is not None and stored != content:
                 rec.violation('C01/L1/stored-bytes-not-the-content', 'verified blob reads back different bytes', {'kinds': kinds, 'len': len(stored)})
+            if blob.get_length() != n:
+                rec.violation('C01/L1/verified-blob-reports-another-length', f'the blob is verified with {n} bytes stored but reports length '
+                              f'{blob.get_length()} (writers {kinds}, decl {decl}, claimed-by-peer {claimed})', {'kinds': kinds, 'decl': decl})
             for i in pre_accept_writers:
                 w = writers[i]
                 if not w.closed() or not w.finished.done():
